@@ -127,6 +127,9 @@ class ExistingData(Contract):
     outcomes = DoSearch.outcomes
     modifies = DoSearch.modifies
 
+    def effects(self, v):
+        v.g['searched_pending'] = True
+
     def ensures(self, v):
         old, new = v.old.self.spawn, v.new.self.spawn
         pend = pend_of(old)
